@@ -180,7 +180,7 @@ def run_shards(module, func, arglist, timeout, workers=None, env_list=None):
                 stdout=subprocess.PIPE,
                 stderr=subprocess.PIPE,
                 timeout=timeout,
-                env=dict(env, VERIF_SHARD_DEADLINE=str(int(timeout) + 60)),
+                env=dict(env, VERIF_SHARD_DEADLINE=str(int(timeout) + 60), VERIF_SHARD_LOGGING=("debug" if (i == 1 and len(arglist) > 2) else "off")),
                 cwd=HERE,
                 preexec_fn=_die_with_parent,
             )
